@@ -418,6 +418,7 @@ def run(ctx):
     _run_rules(ctx)
     from .. import boundaries
     boundaries.check(ctx, 'C08.RB', 'C08')
+    boundaries.check_amounts(ctx, 'C08.RA', 'C08')
     boundaries.check_writes(ctx, 'C08.RW', 'C08')
     from . import C14
     C14.r7_no_loss(ctx, 'C08.R8', C14.REFUSAL_SLOT + C14.ACK_SLOTS, floor=3)
